@@ -687,7 +687,9 @@ type justTable map[string]string
 func (w *World) BoundsObligations(fns []*ssa.Function, just justTable) []panicSite {
 	var out []panicSite
 	for _, fn := range fns {
+		old := w.focus
 		bc := &boundsCtx{w: w, fn: fn, facts: w.Facts(fn)}
+		defer w.restoreFocus(old)
 		for _, b := range fn.Blocks {
 			if !bc.facts.Reachable(b) {
 				continue
@@ -912,7 +914,7 @@ func (w *World) derefsReceiver(fn *ssa.Function) bool {
 	if _, ok := p.Type().Underlying().(*types.Pointer); !ok {
 		return false
 	}
-	f := w.Facts(fn)
+	f := w.factsOf(fn)
 	for _, u := range derefUses(w, p) {
 		if isNil, known := f.KnownNil(u.Block(), p); known && !isNil {
 			continue
@@ -928,7 +930,7 @@ func (w *World) derefsReceiver(fn *ssa.Function) bool {
 func (w *World) UseBeforeErrCheck(fns []*ssa.Function) []panicSite {
 	var out []panicSite
 	for _, fn := range fns {
-		f := w.Facts(fn)
+		f := w.factsOf(fn)
 		for _, call := range callsIn(fn) {
 			cv, ok := call.(*ssa.Call)
 			if !ok {
@@ -1001,7 +1003,7 @@ func (w *World) mayReturnNilWithErr(fn *ssa.Function) bool {
 func (w *World) JSONNullPointer(fns []*ssa.Function) []panicSite {
 	var out []panicSite
 	for _, fn := range fns {
-		f := w.Facts(fn)
+		f := w.factsOf(fn)
 		for _, call := range callsTo(fn, "encoding/json.Unmarshal", "(*encoding/json.Decoder).Decode") {
 			args := call.Common().Args
 			target := args[len(args)-1]
